@@ -27,7 +27,7 @@ VARIABLES ts, l
 
 tvars == <<ts, l>>
 
-Zero == [t \in Types |-> 0]
+Zero == [t \in RateClasses |-> 0]
 TS0 == [ph |-> "idle", cfg |-> [kind |-> "none"],
         nn |-> Zero, rn |-> Zero, no |-> Zero, ro |-> Zero, aggs |-> {}]
 
@@ -41,7 +41,7 @@ TReset ==
 
 CfgOf(ev) == [ty |-> ev.ty, r |-> ev.r, c |-> ev.c, sn |-> ev.sn,
               st |-> ev.st, grid |-> ev.grid, kind |-> ev.kind,
-              vec |-> ev.vec]
+              vec |-> ev.vec, ud |-> ev.ud]
 
 TCfg ==
     /\ Ev.e = "Cfg"
@@ -60,7 +60,8 @@ TScn ==
     IN
     /\ o.e = "Scn"
     /\ Explain(ts.ph = "cfg", <<l, "Scn", "phase", "cfg">>)
-    /\ Explain(o.kind = k /\ o.ty = ts.cfg.ty, <<l, "Scn", "kind", k>>)
+    /\ Explain(o.kind = k /\ o.ty = ts.cfg.ty /\ o.cls = RateClassOf(ts.cfg),
+               <<l, "Scn", "kind", k>>)
     (* all standards are legal and fully known: every add is accepted and   *)
     (* set_m_error accepts the vectors (ranges span the calibration band)   *)
     /\ Explain(o.wsetup = 1, <<l, "Scn", "wsetup", 1>>)
@@ -97,7 +98,7 @@ TEnd ==
     /\ Explain(ts.ph \in {"done", "idle", "rate"}, <<l, "End", "phase", "done">>)
     (* a rate episode must have aggregated every type it observed *)
     /\ Explain(ts.ph = "rate" =>
-                 \A t \in Types : (ts.nn[t] + ts.no[t] > 0) => t \in ts.aggs,
+                 \A t \in RateClasses : (ts.nn[t] + ts.no[t] > 0) => t \in ts.aggs,
                <<l, "End", "aggs", "every observed type aggregated">>)
     /\ ts' = TS0
 
@@ -108,7 +109,7 @@ TObs ==
     LET o == Ev IN
     /\ o.e = "Obs"
     /\ Explain(ts.ph \in {"idle", "rate"}, <<l, "Obs", "phase", "rate">>)
-    /\ Explain(o.ty \in Types /\ o.kind \in RateKinds /\ o.rej \in {0, 1},
+    /\ Explain(o.ty \in RateClasses /\ o.kind \in RateKinds /\ o.rej \in {0, 1},
                <<l, "Obs", "fields", "type, kind, rej">>)
     /\ Explain(ts.aggs = {}, <<l, "Obs", "order", "observations before totals">>)
     /\ ts' = IF o.kind = "noisy"
@@ -121,7 +122,7 @@ TAgg ==
     LET a == Ev IN
     /\ a.e = "Agg"
     /\ Explain(ts.ph = "rate", <<l, "Agg", "phase", "rate">>)
-    /\ Explain(a.ty \in Types /\ a.ty \notin ts.aggs, <<l, "Agg", "ty", "once per type">>)
+    /\ Explain(a.ty \in RateClasses /\ a.ty \notin ts.aggs, <<l, "Agg", "ty", "once per type">>)
     /\ Explain(a.nn = ts.nn[a.ty] /\ a.rn = ts.rn[a.ty] /\
                a.no = ts.no[a.ty] /\ a.ro = ts.ro[a.ty],
                <<l, "Agg", "counts", <<ts.nn[a.ty], ts.rn[a.ty],
